@@ -397,7 +397,7 @@ func quirkSet(mask int) []string {
 func init() {
 	register(&Property{ID: "C16", Level: "exploration", QuickS: 120, ThoroughS: 900,
 		Assume: []string{"verdicts come from a packet walk (table filter, hook FORWARD, NEW connections) over the rules and sets the real PolicyManager installed in the netfilter simulator mc/nfsim",
-			"clusters: 2 namespaces, pods web/db/cli2 (on or off the node), all sets of <=3 policies out of 16 shapes (pod/namespace/combined selectors, ipBlock with except, tcp/udp ports incl. one number under both protocols and a port without protocol, deny-all, allow-all, both directions, implicit egress type)",
+			"clusters: 2 namespaces, pods web/db/cli2 (on or off the node), all sets of <=3 policies out of 17 shapes (two rules sharing their first peer, pod/namespace/combined selectors, ipBlock with except, tcp/udp ports incl. one number under both protocols and a port without protocol, deny-all, allow-all, both directions, implicit egress type)",
 			"flows: every ordered pair of pod and external addresses (inside block / inside except / outside) with a local pod at either end x {tcp,udp} x {80,81,53}; host-originated traffic, named ports and SCTP are outside the alphabet",
 			"reference = evaluator written from the NetworkPolicy API semantics with five named, switchable deviations used only to attribute disagreements to known findings"},
 		Rule: "for every (pod set, policy set): one real full sync, then every flow is walked through the installed rules and compared with the reference verdict; distinct/non-trivial = distinct (cluster, policies, flow, verdict) tuples",
